@@ -287,6 +287,114 @@ func ruleGate(c *Ctx) *RuleResult {
 	}
 	r.count("direct_sink_call_sites_in_module", direct)
 	r.Tables = append(r.Tables, "ioSinks", "ioHostPackages", "ioSinkExceptionEdges", "directSinkCallers")
+	// (b') what a context definition asks for is what the context requires: in PushContext
+	// some store to requiredFlags that every return is behind or-s in a value that
+	// contains def.RequiredFlags on every path (through phis and through a helper's
+	// returns); together with (b) — the field only grows — the flags asked for cannot be
+	// dropped, whatever limits the definition also sets
+	if push := p.Func("runtime", "(*runtimeContextManager).PushContext"); push != nil && p.Config.Tags != "noquotas" {
+		isAsked := func(v ssa.Value) bool {
+			u, ok := v.(*ssa.UnOp)
+			if !ok || u.Op != token.MUL {
+				return false
+			}
+			fa, ok := u.X.(*ssa.FieldAddr)
+			if !ok {
+				return false
+			}
+			_, tn, fld := fieldOfAddr(fa)
+			return tn == "RuntimeContextDef" && fld == "RequiredFlags"
+		}
+		var contains func(v ssa.Value, depth int, seen map[ssa.Value]bool) bool
+		contains = func(v ssa.Value, depth int, seen map[ssa.Value]bool) bool {
+			if depth > 10 {
+				return false
+			}
+			v = stripConv(v)
+			if isAsked(v) {
+				return true
+			}
+			if seen[v] {
+				return true // a loop-carried phi: judged by its other edges
+			}
+			seen[v] = true
+			switch x := v.(type) {
+			case *ssa.BinOp:
+				if x.Op == token.OR {
+					return contains(x.X, depth+1, seen) || contains(x.Y, depth+1, seen)
+				}
+			case *ssa.Phi:
+				for _, e := range x.Edges {
+					if !contains(e, depth+1, seen) {
+						return false
+					}
+				}
+				return len(x.Edges) > 0
+			case *ssa.UnOp:
+				// a local accumulator: every store to it must keep the asked flags
+				if al, ok := x.X.(*ssa.Alloc); ok && x.Op == token.MUL {
+					n := 0
+					for _, ref := range *al.Referrers() {
+						if st, ok := ref.(*ssa.Store); ok && st.Addr == ssa.Value(al) {
+							n++
+							if !contains(st.Val, depth+1, seen) {
+								return false
+							}
+						}
+					}
+					return n > 0
+				}
+			case *ssa.Call:
+				cal := x.Call.StaticCallee()
+				if cal == nil || !p.InModule(cal) || cal.Blocks == nil {
+					return false
+				}
+				ok, n := true, 0
+				forEachInstr(cal, func(ins ssa.Instruction) {
+					if ret, isRet := ins.(*ssa.Return); isRet && len(ret.Results) == 1 {
+						n++
+						if !contains(ret.Results[0], depth+1, map[ssa.Value]bool{}) {
+							ok = false
+						}
+					}
+				})
+				return ok && n > 0
+			}
+			return false
+		}
+		found := false
+		forEachInstr(push, func(ins ssa.Instruction) {
+			st, ok := ins.(*ssa.Store)
+			if !ok {
+				return
+			}
+			fa, ok := st.Addr.(*ssa.FieldAddr)
+			if !ok {
+				return
+			}
+			if _, _, fld := fieldOfAddr(fa); fld != "requiredFlags" {
+				return
+			}
+			if !contains(st.Val, 0, map[ssa.Value]bool{}) {
+				return
+			}
+			// every return is behind this store
+			all := true
+			forEachInstr(push, func(o ssa.Instruction) {
+				if _, isRet := o.(*ssa.Return); isRet && !instrDominates(ins, o) && (push.Recover == nil || o.Block() != push.Recover) {
+					all = false
+				}
+			})
+			if all {
+				found = true
+			}
+		})
+		if found {
+			r.ok("(b') PushContext or-s the flags the definition asks for into the context's required flags on every path")
+		} else {
+			r.fail("asked-flags-not-required", p.Pos(push.Pos()), "no store to requiredFlags in PushContext is guaranteed to include def.RequiredFlags: on some path (e.g. when the definition also sets a limit) the flags the definition asks for are replaced instead of or-ed in, so a context created with flags=\"iosafe\" and a memory limit does not require iosafe")
+		}
+	}
 	return r
 }
 
